@@ -250,10 +250,12 @@ def tokens_part(st, ctx, out):
     den = 1 if ch.chance(2, 3) else 2
     mod = _mod(cls)
     common.FORCE_INTERRUPT_DEN[0] = den
+    common.FORCE_BACKEND[0] = "sim"
     try:
         sub = mod.execute(st, ctx)
     finally:
         common.FORCE_INTERRUPT_DEN[0] = None
+        common.FORCE_BACKEND[0] = None
     if sub.breach_detail:
         kind = sub.breach_detail[0][0]
         out.violate("C17." + kind, (cls,), {"workload_class": cls, "breaches": [repr(b) for b in sub.breach_detail],
@@ -316,6 +318,8 @@ asyncio.Lock = TripLock
 asyncio.locks.Lock = TripLock
 from aslsim.runner import setup_repo_path, load_check, Ctx
 from aslsim.choice import Streams
+from aslsim.checks import common
+common.FORCE_BACKEND[0] = "sim"
 import gc
 setup_repo_path()
 gc.disable()
